@@ -169,6 +169,17 @@ def finish(ctx: Ctx, *, level="other", explanation="", trusted_base=(), assumpti
             print(f"   {f}")
         print(f"VIOLATION property={ctx.prop} replay={replay}")
         code = 1
+    if ctx.tier == "thorough" and code == 0 and os.environ.get("FV_SELFTEST", "1") != "0":
+        from . import selftest
+        results, problems = selftest.run(ctx)
+        ctx.extra["selftest"] = {"cases": results,
+                                 "summary": {k: sum(1 for r in results if r["result"] == k) for k in sorted({r["result"] for r in results})}}
+        print(f"   selftest: {len(results)} case(s): " + ", ".join(f"{k}={v}" for k, v in ctx.extra["selftest"]["summary"].items()))
+        for p in problems:
+            print(f"ANALYSIS-ERROR property={ctx.prop} selftest {p}")
+            ctx.errors.append("selftest " + p)
+        if problems:
+            code = 2
     wall = time.time() - ctx.t0
     if samples is None:
         samples = [dict(rule=o.rule, where=o.where, fact=o.fact, ok=o.ok) for o in ctx.obligations[:12]]
